@@ -143,7 +143,65 @@ theorem run_insF : ∀ (ops : List (List Nat × Int)) (t : Forest), (∀ op ∈ 
     rw [← hstep]
     exact this
 
+/-- `prune_above_filtration` keeps the tree face-closed and monotone -/
+theorem valid_prune (t : Forest) (f : Int) (lb : Option Nat) (hv : Valid t) (hs : Sorted lb t) : Valid (prune t f) := by
+  apply valid_of_sv _ lb (sorted_prune t f lb hs)
+  have hsv := sv_of_valid lb t hv hs
+  have hfind : ∀ q, find (prune t f) q = (match find t q with | some g => if g ≤ f then some g else none | none => none) :=
+    fun q => by rw [find_prune t lb f q hs, survives_sublevel t f q hv]; cases find t q <;> rfl
+  intro w a hw q hq hne
+  rw [hfind w] at hw
+  cases hfw : find t w with
+  | none => rw [hfw] at hw; cases hw
+  | some gw =>
+    rw [hfw] at hw
+    by_cases hle : gw ≤ f
+    · simp only [hle, if_true, Option.some.injEq] at hw
+      subst hw
+      obtain ⟨b, hb, hba⟩ := hsv w gw hfw q hq hne
+      refine ⟨b, ?_, hba⟩
+      rw [hfind q, hb]
+      have : b ≤ f := Int.le_trans hba hle
+      simp [this]
+    · simp [hle] at hw
+
+/-- `prune_above_dimension` keeps the tree face-closed and monotone -/
+theorem valid_pruneDim (t : Forest) (d : Nat) (lb : Option Nat) (hv : Valid t) (hs : Sorted lb t) :
+    Valid (pruneDim t d) := by
+  apply valid_of_sv _ lb (sorted_pruneDim t d lb hs)
+  have hsv := sv_of_valid lb t hv hs
+  intro w a hw q hq hne
+  rw [find_pruneDim] at hw
+  by_cases hlen : w.length ≤ d + 1
+  · rw [if_pos hlen] at hw
+    obtain ⟨b, hb, hba⟩ := hsv w a hw q hq hne
+    refine ⟨b, ?_, hba⟩
+    rw [find_pruneDim, if_pos (Nat.le_trans hq.length_le hlen)]; exact hb
+  · rw [if_neg hlen] at hw; cases hw
+
+/-- `remove_maximal_simplex` of a simplex without proper cofaces keeps the tree face-closed and monotone -/
+theorem valid_removeLeaf (t : Forest) (w : List Nat) (lb : Option Nat) (hv : Valid t) (hs : Sorted lb t)
+    (hleaf : kidsAt t w = some Forest.nil) (hmax : ∀ u a, find t u = some a → w <+ u → u = w) :
+    Valid (removeLeaf t w) := by
+  apply valid_of_sv _ lb (sorted_removeLeaf t w lb hs)
+  have hsv := sv_of_valid lb t hv hs
+  intro u a hu q hq hne
+  rw [find_removeLeaf t w lb u hs hleaf] at hu
+  by_cases huw : u = w
+  · rw [if_pos huw] at hu; cases hu
+  · rw [if_neg huw] at hu
+    obtain ⟨b, hb, hba⟩ := hsv u a hu q hq hne
+    refine ⟨b, ?_, hba⟩
+    rw [find_removeLeaf t w lb q hs hleaf]
+    have hqw : q ≠ w := by
+      intro e; subst e
+      exact huw (hmax u a hu hq)
+    rw [if_neg hqw]; exact hb
+
 #print axioms valid_of_sv
 #print axioms valid_insF
 #print axioms run_insF
+#print axioms valid_prune
+#print axioms valid_pruneDim
+#print axioms valid_removeLeaf
 end TrieProto
